@@ -186,6 +186,14 @@ func libraryCompress(c *mon.C, msg []byte, level int, resettable bool, endMode i
 	return dst.Bytes(), pattern, nil
 }
 
+// decResetter is the adapter that lets wsflate.Reader RE-USE a compress/flate decompressor across Reset (wsflate's
+// optional ReadResetter is Reset(io.Reader); compress/flate's own method has another signature).
+type decResetter struct{ rc io.ReadCloser }
+
+func (d decResetter) Read(p []byte) (int, error) { return d.rc.Read(p) }
+func (d decResetter) Close() error               { return d.rc.Close() }
+func (d decResetter) Reset(src io.Reader)        { d.rc.(flate.Resetter).Reset(src, nil) }
+
 // reusedReader, when a case sets it, makes libraryDecompress reuse ONE decompression reader through Reset for all
 // the streams of that case (byte-reader and plain sources alternate): a connection-long reader instead of one per message.
 type reusedReader struct{ r *wsflate.Reader }
@@ -207,7 +215,12 @@ func libraryDecompress(c *mon.C, comp []byte, plan xport.Plan, byteReader bool, 
 	var r *wsflate.Reader
 	if len(reuse) > 0 && reuse[0] != nil {
 		if reuse[0].r == nil {
-			reuse[0].r = wsflate.NewReader(src, func(r io.Reader) wsflate.Decompressor { return flate.NewReader(r) })
+			ctor := func(r io.Reader) wsflate.Decompressor { return flate.NewReader(r) }
+			if (len(comp)+buf)%2 == 0 {
+				// a decompressor the Reader keeps across Reset (through ReadResetter) instead of making a new one
+				ctor = func(r io.Reader) wsflate.Decompressor { return decResetter{flate.NewReader(r)} }
+			}
+			reuse[0].r = wsflate.NewReader(src, ctor)
 		} else {
 			reuse[0].r.Reset(src)
 		}
@@ -518,8 +531,11 @@ func subFrames() mon.Sub {
 				hl := wsflate.Helper{
 					Compressor: compressorCtor(level, v == 0, v == 1),
 					Decompressor: func(r io.Reader) wsflate.Decompressor {
-						if (c.I+v)%2 == 0 {
+						switch (c.I + v) % 3 {
+						case 0:
 							return hideDecReset{flate.NewReader(r)}
+						case 1:
+							return decResetter{flate.NewReader(r)}
 						}
 						return flate.NewReader(r)
 					},
@@ -552,6 +568,20 @@ func subFrames() mon.Sub {
 				}
 			}
 			// non-final frames are refused by both helpers
+			// a frame that already carries the compression bit: the helpers refuse it, or (the statement's round trip)
+			// whatever they return decompresses back to exactly that frame - never a frame that lost a layer
+			for name, call := range map[string]func(ws.Frame) (ws.Frame, error){"CompressFrame": wsflate.CompressFrame, "Helper.CompressFrame": wsflate.DefaultHelper.CompressFrame} {
+				in := cf
+				in.Payload = append([]byte(nil), cf.Payload...)
+				c.Count(1)
+				if cc, err := call(in); err == nil {
+					back, derr := wsflate.DecompressFrame(cc)
+					if derr != nil || back.Header != cf.Header || !bytes.Equal(back.Payload, cf.Payload) {
+						c.Fail("frames/compress-twice/"+name, fmt.Sprintf("%s accepted a frame that is already compressed and returned one that does not decompress back to it (err=%v, header %+v)", name, derr, back.Header), det)
+						return
+					}
+				}
+			}
 			nf := f
 			nf.Header.Fin = false
 			if _, err := wsflate.CompressFrame(nf); err == nil {
